@@ -20,6 +20,8 @@
 #include <pika/init.hpp>
 #include <pika/latch.hpp>
 #include <pika/mutex.hpp>
+#include <pika/errors/exception.hpp>
+#include <pika/semaphore.hpp>
 #include <pika/threading_base/register_thread.hpp>
 #include <pika/threading_base/scheduler_base.hpp>
 #include <pika/threading_base/set_thread_state.hpp>
@@ -492,6 +494,7 @@ namespace vt {
         long total_events = 0, total_chains = 0, total_tasks = 0;
         int mon_hits = 0;
         double timeout_s = 60.0;
+        double stale_limit_s = 4.0;
         bool inconclusive = false;
 
         thread_pool_base* pool() { return get_self_or_default_pool(); }
@@ -513,11 +516,63 @@ namespace vt {
         {
             auto t0 = std::chrono::steady_clock::now();
             int quiet = 0;
+            // "marked active, on no worker": a task whose id the case has published (ids / idready)
+            // is watched; its state word says `active` with an unchanged tag while the occupancy
+            // word of its thread object (set at body entry 110, cleared at body exit 111) says
+            // that no worker is inside its coroutine.  In the real protocol that combination
+            // exists only between the pending->active CAS and the coroutine switch and between
+            // the switch back and store_state (a few instructions + the seeded perturbation,
+            // < 1 ms); seeing it without interruption for stale_limit_s seconds means that the
+            // phase ended without its state being stored: the task can never be resumed
+            // (set_thread_state only ever finds it active), whatever wake-up is issued.
+            struct Watch
+            {
+                std::uint64_t word = 0;
+                double since = -1.0;
+            };
+            std::vector<Watch> watch(std::size_t(c.K));
             for (;;)
             {
                 if (c.done.load() >= expected) return true;
                 std::this_thread::sleep_for(std::chrono::microseconds(200));
                 double el = std::chrono::duration<double>(std::chrono::steady_clock::now() - t0).count();
+                for (int k = 0; k < c.K; ++k)
+                {
+                    Watch& wk = watch[std::size_t(k)];
+                    if (!c.idready[k].load(std::memory_order_acquire) || c.exited[k].load() != 0)
+                    {
+                        wk.since = -1.0;
+                        continue;
+                    }
+                    auto* td = get_thread_id_data(c.ids[std::size_t(k)]);
+                    std::uint64_t w = static_cast<std::uint64_t>(td->get_state(std::memory_order_relaxed).verif_raw());
+                    Slot* sl = occ_slot(td);
+                    bool off = sl != nullptr && sl->occ.load(std::memory_order_acquire) == 0;
+                    if (w_st(w) == ST_ACTIVE && off)
+                    {
+                        if (wk.since >= 0 && wk.word == w)
+                        {
+                            if (el - wk.since > stale_limit_s)
+                            {
+                                counts("watchdog", c);
+                                std::printf("MON %d %s kind=%s task=%d marked active (word st=%d ex=%d tag=%llu) but inside no worker's "
+                                            "coroutine for %.1fs: the phase ended and its state was never stored; reg=%d "
+                                            "wakeup_issued_for_task=%d done=%d expected=%d wakeups_issued=%ld\n",
+                                    c.id, c.flag[k].load() > 0 ? "lost_wakeup" : "stranded_active", c.kind.c_str(), k, w_st(w), w_ex(w),
+                                    (unsigned long long) w_tag(w), el - wk.since, c.reg[k].load(), c.flag[k].load(), c.done.load(),
+                                    expected, c.wakeups_issued.load());
+                                std::fflush(stdout);
+                                return false;
+                            }
+                        }
+                        else
+                        {
+                            wk.word = w;
+                            wk.since = el;
+                        }
+                    }
+                    else wk.since = -1.0;
+                }
                 if (el > 1.0)
                 {
                     auto* p = pool();
